@@ -3,6 +3,14 @@ from vx.assemble import Builder, Clause
 from vx import extract as X
 from units import expr as E
 
+def _map_or_as_match(t, log, w):
+    """R33: `let N = E.map_or(false, |v| B);` => `let N = match E { Some(v) => B, None => false };`"""
+    import re
+    m = re.search(r'let (\w+) = ([^;]*?)\s*\.map_or\((true|false), \|(\w+)\| ([^;]*)\);', t, re.S)
+    if not m: return t
+    log.add('R33', w, 'let N = X.map_or(D, |v| B);', 'let N = match X { Some(v) => B, None => D };')
+    return t[:m.start()] + 'let %s = match %s { Some(%s) => %s, None => %s };' % (m.group(1), m.group(2).strip(), m.group(4), m.group(5).strip(), m.group(3)) + t[m.end():]
+
 def build(repo, spec_dir, canary=False):
     b = Builder('regexp', repo, canary)
     b.emit('#![feature(allocator_api)]\nuse vstd::prelude::*;\nuse vstd::std_specs::cmp::*;\nuse std::collections::BTreeSet;\nverus! {')
@@ -24,10 +32,25 @@ pub open spec fn passed(e: Expression<'static>, test_cases: Seq<String>) -> bool
 pub broadcast proof fn lemma_passed(rg: Regex, test_cases: Seq<String>) requires #[trigger] selfcheck_verdict(rg, test_cases) ensures passed(regex_source(rg), test_cases) { }
 pub uninterp spec fn built_by_new_alternation(e: Expression<'static>) -> bool;
 pub uninterp spec fn erase<'a>(e: Expression<'a>) -> Expression<'static>;                          // the same tree without its lifetime (ghost only)
-#[verifier::external_body] pub fn vx_regex_text_without_line_breaks(r: &Regex) -> (s: String) ensures compiles_to(s@) == regex_source(*r) { unimplemented!() }
+// C07: build() must return for EVERY combination of settings.  The regex crate accepts a text or not (`compiles`, uninterpreted); the property promises that
+// the printed pattern compiles "unless surrogate-pair escaping or syntax highlighting is on" -- so only then may a compile result be unwrapped.
+pub uninterp spec fn compiles(text: Seq<char>) -> bool;
+pub uninterp spec fn expr_text(e: Expression<'static>) -> Seq<char>;           // Display for Expression
+pub uninterp spec fn strip_sgr(text: Seq<char>) -> Seq<char>;                 // the text without the colour codes
+pub open spec fn candidate_text(e: Expression<'static>, c: RegExpConfig) -> Seq<char> { if c.is_output_colorized { strip_sgr(expr_text(e)) } else { expr_text(e) } }
+// ASSUMED (the second half of C07, a statement about the regex crate's parser): without surrogate pairs the printer emits valid syntax
+pub broadcast axiom fn axiom_printer_emits_valid_syntax(e: Expression<'static>, c: RegExpConfig)
+    requires !c.is_astral_code_point_converted_to_surrogate ensures #[trigger] compiles(candidate_text(e, c));
+// ghost bookkeeping: a regex compiled from the candidate text of e "comes from" e
+pub broadcast axiom fn axiom_candidate_source(e: Expression<'static>, c: RegExpConfig) ensures #[trigger] compiles_to(candidate_text(e, c)) == e;
+// the verbose branch recompiles the candidate without the line breaks the verbose components inserted: ASSUMED to compile if the candidate did
+#[verifier::external_body] pub fn vx_regex_text_without_line_breaks(r: &Regex) -> (s: String) ensures compiles_to(s@) == regex_source(*r), compiles(s@) { unimplemented!() }
+#[verifier::external_body] pub fn vx_expr_text(e: &Expression) -> (s: String) ensures s@ == expr_text(erase(*e)) { unimplemented!() }
+#[verifier::external_body] pub fn vx_strip_colour(r: &Regex, s: &String) -> (o: String) ensures o@ == strip_sgr(s@) { unimplemented!() }
+// a constant pattern (the colour-code pattern): compiled in every run of the suite
+#[verifier::external_body] pub fn vx_constant_regex(s: &str) -> (r: Regex) { unimplemented!() }
 impl Regex {
-    // the self-check compiles the candidate pattern and unwraps: that the printer emits valid syntax is ASSUMED here (C07 lists it as not decided)
-    #[verifier::external_body] pub fn new(s: &str) -> (r: Result<Regex, ()>) ensures r is Ok, regex_source(r->Ok_0) == compiles_to(s@) { unimplemented!() }
+    #[verifier::external_body] pub fn new(s: &str) -> (r: Result<Regex, ()>) ensures r is Ok <==> compiles(s@), r is Ok ==> regex_source(r->Ok_0) == compiles_to(s@) { unimplemented!() }
 }''')
     b.emit("impl<'a> Dfa<'a> {")
     b.emit('''    #[verifier::external_body]
@@ -47,7 +70,19 @@ impl Regex {
     b.assumed_fn('regexp.rs', 'convert_for_case_insensitive_matching', within=RX, ensures=['final(test_cases)@ == caseconv_spec(old(test_cases)@)'], why='iter().map(closure).collect_vec(); the closure body is verified in unit misc')
     b.assumed_fn('regexp.rs', 'sort', within=RX, ensures=['final(test_cases)@ == sort_spec(old(test_cases)@)'], why='std sort/dedup/sort_by; comparator verified in unit misc')
     b.assumed_fn('regexp.rs', 'grapheme_clusters', within=RX, ensures=['r@ == clusters_spec(test_cases@, *config)'], why='iterator chains, unicode-segmentation; conversion closures verified in units classify/misc')
-    b.assumed_fn('regexp.rs', 'convert_expr_to_regex', within=RX, ensures=['regex_source(r) == erase(*expr)'], why='regex crate; ghost bookkeeping: the regex was printed from this expression')
+    # convert_expr_to_regex: whole function (it used to be assumed): every unwrap of a compile result needs a text the property promises to compile
+    cf, _, _ = X.fn(b.src('regexp.rs'), 'convert_expr_to_regex', within=RX)
+    optional = '-> Option<Regex>' in cf
+    CONV_RULES = [('R19', r'Regex::new\(("(?:[^"\\]|\\.)*")\)\.unwrap\(\)', r'vx_constant_regex(\1)', 'Regex::new(CONSTANT).unwrap(): a constant pattern'),
+                  ('R19', r'color_replace_regex\.replace_all\(&expr\.to_string\(\), ""\)', 'vx_strip_colour(&color_replace_regex, &vx_expr_text(expr))', 'Regex::replace_all(text, ""): the text without the colour codes (strip_sgr, uninterpreted)'),
+                  ('R16', r'\bexpr\.to_string\(\)', 'vx_expr_text(expr)', 'Display for Expression (expr_text, uninterpreted)')]
+    if optional:
+        conv = [Clause('selfcheck.compiled_candidate_comes_from_the_expression', 'r is Some ==> regex_source(r->Some_0) == erase(*expr)', ['C08']),
+                Clause('selfcheck.a_candidate_without_surrogate_pairs_is_compiled', '!config.is_astral_code_point_converted_to_surrogate ==> r is Some', ['C08', 'C07'])]
+    else:
+        conv = [Clause('selfcheck.compiled_candidate_comes_from_the_expression', 'regex_source(r) == erase(*expr)', ['C08'])]
+    b.verified_fn('regexp.rs', 'convert_expr_to_regex', within=RX, props=['C07'], fname='RegExp::convert_expr_to_regex', extra_rules=CONV_RULES, clauses=conv,
+                  blocks=[(None, 'fn_start', '        broadcast use axiom_printer_emits_valid_syntax, axiom_candidate_source;\n        proof { assert(candidate_text(erase(*expr), *config) == candidate_text(erase(*expr), *config)); }')])
     b.assumed_fn('regexp.rs', 'regex_matches_all_test_cases', within=RX, ensures=['r == selfcheck_verdict(*regex, test_cases@)'], why='regex engine call; the verdict is a function of its two arguments (the same text as in unit expr)')
     b.assumed_fn('regexp.rs', 'is_each_test_case_matched_after_rotating_alternations', within=RX, ensures=[c[1] for c in E.ROTATE_CLAUSES], why='verified in unit expr against exactly this contract (rotate.lang_preserved, rotate.positive_verdict_is_for_the_returned_arrangement)')
     W = 'words(clusters_spec(final(test_cases)@, *config))'
@@ -56,7 +91,7 @@ impl Regex {
                            Clause('pipeline.language', 'lang(r.ast) == %s' % W, ['C01', 'C02', 'C08', 'C16']),
                            Clause('pipeline.config', 'r.config == config', ['C10']),
                            Clause('pipeline.unanchored_result_passed_a_selfcheck_or_is_the_fallback',
-                                  'config.is_end_anchor_disabled ==> passed(erase(r.ast), final(test_cases)@) || built_by_new_alternation(erase(r.ast))', ['C08'])],       # without `$` nothing forces a match to reach the end of the test case: the order of the alternatives must do it, and only the self-check looks at that (with `$` and no `^` the leftmost match of a word of the language starts at 0 and must end at the end)
+                                  'config.is_end_anchor_disabled && !config.is_astral_code_point_converted_to_surrogate ==> passed(erase(r.ast), final(test_cases)@) || built_by_new_alternation(erase(r.ast))', ['C08'])],       # without `$` nothing forces a match to reach the end of the test case: the order of the alternatives must do it, and only the self-check looks at that (with `$` and no `^` the leftmost match of a word of the language starts at 0 and must end at the end)
                   loops={1: ['it1.seq() == gc0', '0 <= it1.index@ <= gc0.len()',
                              ('pipeline.fallback_alternation@loop1', ['C01', 'C08', 'C16'], 'alt_lang(exprs@) == words(gc0.take(it1.index@))')]},
                   blocks=[(None, 'fn_start', '        broadcast use lemma_passed;'),
@@ -68,11 +103,12 @@ impl Regex {
                             lemma_alt_lang_push(old_exprs, exprs@.last());
                             lemma_words_take_step(gc0, it1.index@);
                         }''', ('pipeline.fallback_alternation@loop1', ['C01', 'C08', 'C16']))],
+                  pre=_map_or_as_match,
                   extra_rules=[('R4', r"regex\.to_string\(\)\.replace\('\\n', \"\"\)", 'vx_regex_text_without_line_breaks(&regex)', 'Display for Regex + String::replace: text only feeds the self-check')])
     b.emit('}\n} // mod code')
     b.emit(E.TRUSTED_PRELUDE)
     b.emit(E.eq_impl('Grapheme')); b.emit(E.eq_impl('Quantifier')); b.emit(E.eq_impl("Expression<'a>", "<'a>"))
     b.emit('} // verus!')
     b.emit(E.OUTSIDE)
-    b.trusted += ['Regex::new(candidate) is Ok (the self-check unwrap): that the printer emits valid syntax is assumed', 'derived Clone/PartialEq structural; glang uninterpreted']
+    b.trusted += ['ASSUMED (axiom_printer_emits_valid_syntax): without surrogate pairs the candidate pattern of the self-check compiles (the second half of C07: a statement about the regex crate parser); with surrogate pairs NOTHING is assumed, so an unwrap of that compile result is a failed obligation', 'removing the line breaks of the verbose components from a compiling candidate keeps it compiling (vx_regex_text_without_line_breaks); the colour-code pattern is a constant that compiles', 'derived Clone/PartialEq structural; glang uninterpreted']
     return b
